@@ -12,3 +12,33 @@ def check(ctx):
                        "a value-stack sentinel's refcount must return to baseline; the runner subprocess must exit 0")
     ctx.assume("reference counts / collectability / no-crash are measured on the explored behaviours (exploration-level for that clause)")
     m7.explore(ctx, "purity", 60, 600, seed_off=4, quick_stride=15, thorough_stride=2)
+
+    trio_leg(ctx)
+
+
+def trio_leg(ctx):
+    """differential leg under Trio (3.12 / the project venv): enumerated programs with cancel scopes whose deadline is absent,
+    ahead, passed-but-unnoticed or already cancelled, observed from the task itself, a sibling, the root"""
+    import json
+    from ..common import BUILD, VERIF, MachineryError, available_interpreters, child_env, run
+    interps = available_interpreters(("3.12",))
+    if "3.12" not in interps:
+        ctx.assume("no interpreter with trio: the Trio purity leg did not run")
+        return
+    d = BUILD / "c06"
+    d.mkdir(parents=True, exist_ok=True)
+    opath = d / "purity_trio.json"
+    p, _ = run([interps["3.12"], str(VERIF / "harness/drivers/purity_trio_driver.py"), str(opath)], timeout=900, env=child_env("3.12"))
+    if p.returncode != 0:
+        raise MachineryError(f"trio purity driver failed: {p.stderr[-1500:]}")
+    o = json.loads(opath.read_text())
+    ctx.replays += o["n"]
+    ctx.count("trio_programs_run_observed_and_unobserved", o["n"])
+    ctx.count("trio_extractions", o["extractions"])
+    ctx.explanation += ("; under Trio, 96 enumerated programs (scope kind x deadline none / ahead / passed but not yet noticed / "
+                        "cancelled x shield x observer position) run un-observed and observed under a virtual clock: log, "
+                        "result and the raw slot state of every scope / nursery must be identical")
+    for mm in o["mismatches"]:
+        if mm["bad"].startswith("harness"):
+            raise MachineryError(mm["bad"])
+        ctx.violation(f"[3.12] Trio program ({mm['case']}): {mm['bad']}", mm)
